@@ -537,7 +537,9 @@ static int vsink_control(struct upipe *upipe, int command, va_list args)
             printf("sink %s set_flow_def %s %s fl=%s\n", s->name, fd_name(fd), s->accept ? "accept" : "reject", pd_fl_of(fd));
         else
             printf("sink %s set_flow_def %s %s\n", s->name, fd_name(fd), s->accept ? "accept" : "reject");
-        if (!s->accept) return UBASE_ERR_INVALID;
+        /* a refusal is a refusal whatever its code: the codes real pipes answer alternate (a pipe that does not
+         * know the command answers UBASE_ERR_UNHANDLED, one that dislikes the definition UBASE_ERR_INVALID) */
+        if (!s->accept) return (s->nrejects++ & 1) ? UBASE_ERR_INVALID : UBASE_ERR_UNHANDLED;
         snprintf(s->fd, sizeof(s->fd), "%s", fd_name(fd));
         return UBASE_ERR_NONE;
     }
